@@ -15,6 +15,9 @@
                                  the slots of step 1 in identifier order, `ok dart t ; …`, a slot left at
                                  `(NULL_DART_ID, NaN)` printed `0 nan` (implementation: the hook
                                  `grisubal::verif::intersection_data` on a fresh nx × ny grid; model: `slotsOf`)
+    gids <nk> k… <n> (d t|0 nan)…  steps 2 + 3 on the session map for the slot vector given (implementation: the hook
+                                 `grisubal::verif::intersection_darts`; model: `stepsTwoThree` with the iteration order
+                                 `k…` of the `HashMap`, `nk = 0`: first-insertion order): `ok id …` / `panic`
     bndinit                      the 2-D session map gets the `Boundary` storage of the clip step (storage 9)
     wbnd <dart> <L|R|N|->        `force_write_attribute::<Boundary>(dart, Left|Right|None)` / remove; reply `ok`
     clip left|right              `clip_left` / `clip_right` (`Model/Clip.lean`): `ok` /
@@ -32,6 +35,7 @@ import Honeycomb.Model.Session
 import Honeycomb.Model.Capture
 import Honeycomb.Model.Grisubal
 import Honeycomb.Model.Clip
+import Honeycomb.Model.GrisubalInsert
 
 namespace HC
 namespace Cap
@@ -72,6 +76,17 @@ def parsePairs : List String → Option (List (Nat × Nat))
       some ((a, b) :: r)
   | _ => none
 
+def parseSlots : List String → Option (List Slot)
+  | [] => some []
+  | d :: t :: rest => do
+      let d ← d.toNat?
+      let r ← parseSlots rest
+      if t = "nan" then some (none :: r)
+      else do
+        let t ← parseRat t
+        some (some (d, t) :: r)
+  | _ => none
+
 end Cap
 
 /-- `impl AttributeUpdate for Boundary` (`grisubal/model.rs`): equal tags merge to themselves, different
@@ -96,6 +111,31 @@ def topCapture (s : Sess) (toks : List String) : Option (Sess × String) :=
             some (s, "err InconsistentOrientation in-boundary-inconsistency")
           else some (s, "ok")
       | _, _, _ => some (s, "bad-op")
+  | "gids" :: nk :: rest =>
+      if s.dim ≠ 2 then some (s, "bad-op") else
+      match nk.toNat? with
+      | none => some (s, "bad-op")
+      | some nk =>
+        match (rest.take nk).mapM String.toNat?, rest.drop nk with
+        | some keys, n :: pairs =>
+          match n.toNat?, parseSlots pairs with
+          | some n, some slots =>
+              if slots.length ≠ n ∨ keys.length ≠ nk then some (s, "bad-op") else
+              -- the darts the implementation refuses: out of range, or the null dart with a position
+              if (pairs.zipIdx.any fun x => x.2 % 2 = 0 ∧ (x.1.toNat?.getD 0) ≥ s.m.n) ∨
+                 slots.any (fun sl => match sl with | some (d, _) => d = 0 | none => false) then some (s, "bad-op") else
+              let edges := edgesOf (hitsOf (s.m.β 2) slots)
+              let keys := if nk = 0 then edges else keys
+              -- the iteration order must list every key of the map once
+              if keys.eraseDups.length ≠ keys.length ∨ keys.length ≠ edges.length ∨ edges.any (fun e => !keys.contains e) then
+                some (s, "bad-op") else
+              let (res, o, m') := stepsTwoThree s.m slots keys
+              match o with
+              | .ok _ => some ({ s with m := m' }, if res.isEmpty then "ok" else "ok " ++ " ".intercalate (res.map toString))
+              | .retry => some ({ s with m := m' }, "diverges")
+              | _ => some ({ s with m := m' }, "panic")
+          | _, _ => some (s, "bad-op")
+        | _, _ => some (s, "bad-op")
   | ["ogrid", c, mn, mx] =>
       match parseRat c, parseRat mn, parseRat mx with
       | some c, some mn, some mx =>
